@@ -26,7 +26,7 @@ CORR_REQUIRE = ["Crit", "gen.TermsTable", "Terms", "Page", "gen.QueryTable", "Qu
 CORR_CHECK = "check_c10"
 CORR_SHOW = "show_c10"
 SHARED_EXTRACT = ["terms", "query"]
-SHARD = 100
+SHARD = 60
 RULE = ("grammar-based random statements of the ten query classes (SELECT/INSERT/UPDATE/DELETE/set operations; 1-3 FROM items, "
         "0-2 joins, aliased and un-aliased tables with schema chains of length 0-3, sub-query sources nested up to 3 deep, "
         "sub-queries in select list / WHERE / IN / EXISTS / function arguments, correlated references to outer tables in "
@@ -950,7 +950,7 @@ def gen_hist(rng):
         k = rng.choice([0, 0, 0, 1, 2, 3])
         if r < 0.2:
             evs.append([op, "table", rng.choice([None, None, "ta%d" % i])])
-        elif r < 0.32 and op == "from":
+        elif r < 0.32:
             evs.append([op, "setop", 0, None])
         elif r < 0.36:
             evs.append([op, "setop", 0, "so%d" % i])
@@ -1104,6 +1104,15 @@ def _corpus_builtin():
                 "where": ["t", ["basic", "gte", _f("depth", s0), ["vali", 0, None], None]]})})
             out.append({"kind": "stmt", "q": sentinelise(sel(cls, [["t", list(tt)]], [["t", _f("a", s0)], ["t", _f("b", s1)]],
                                                              joins=[["left", ["t", list(tt)], ["on", ["t", ["basic", "eq", _f("parent", s0), _f("id", s1), None]]]]]))})
+    # still open after 10401de: the numbered alias is only checked against EARLIER sources -- a real table t2 joined after the
+    # invented t2; and a table literally called "sq" whose numbered alias sq2 is also the next sub-query tag
+    out.append({"kind": "stmt", "q": sentinelise(sel("Query", [["t", T]], [["t", _f("a", s0)], ["t", _f("b", s1)], ["t", _f("c", s2)]],
+                                                     joins=[["inner", ["t", T], on(1)], ["inner", ["t", ["t2", [], None]], on(2)]]))})
+    SQT = ["sq", [], None]
+    out.append({"kind": "stmt", "q": sentinelise(sel("Query", [["q", mini("Query", U)], ["q", mini("Query", V)], ["t", SQT]],
+                                                     [["t", _f("a", ["#3", [], None])], ["t", _f("a", ["#4", [], None])]],
+                                                     joins=[["inner", ["t", SQT], ["on", ["t", ["basic", "eq", _f("a", s2), _f("a", ["#3", [], None]), None]]]],
+                                                            ["inner", ["q", mini("Query", T)], ["on", ["t", ["basic", "eq", _f("a", s2), _f("a", ["#4", [], None]), None]]]]]))})
     # pinned shapes that must stay right
     x1, x2 = ["x", ["d", "s"], None], ["x", ["s2"], None]
     out.append({"kind": "stmt", "q": sentinelise(sel("Query", [["t", x1]], [["t", _f("a", s0)], ["t", _f("b", s1)]],
@@ -1237,8 +1246,8 @@ def to_coq(case, outcome):
                 # (a table's alias is not run_hist's business; with a set operation among the FROM items do_join gives ANY
                 #  un-aliased joined table the name2 alias, because `item in base_tables` compares with the Term on the left)
                 evs.append("(EOther %s)" % OS(act))
-            elif e[1] == "setop" and e[0] == "join" and g is None:
-                evs.append("(EOther %s)" % OS(g))
+            elif e[1] == "setop" and e[0] == "join":
+                evs.append("(EJoinQ %s)" % OS(g))     # join() tags an un-aliased set operation like a sub-query (c9e6663)
             elif e[1] == "setop" and e[0] == "from":
                 evs.append("(EFromQ %s %s)" % (OS(g), N(0)))
             elif e[0] == "from":
@@ -1257,11 +1266,7 @@ def to_coq(case, outcome):
             return "(CStmt %s %s [] [])" % (coq_query(coq_spec(case["q"], _TagDefault())), S(text))
         except Exception:  # noqa
             return None
-    for st in outcome["info"].values():
-        if st.get("setop_join_unnamed") or (st.get("setop_from") and st.get("correlated")) or st.get("setop_from_plain_join"):
-            return None        # set-operation sources: join() leaves them nameless / _validate_table never sees a foreign table
-    if any(r["bind"] == ["foreign"] and outcome["info"][str(r["sid"])].get("setop_from") for r in outcome["refs"]):
-        return None
+    # (set-operation sources are modelled like any other since 187adc3 / c9e6663: no exclusions any more)
     tagged = [s_ for s_, _, _ in all_statements(case["q"]) if s_.get("pretag") is not None]
     spec = coq_spec(case["q"], {id(s_): a for s_, a in zip(tagged, outcome.get("pretags", []))})
     # the sentinels of the TOP statement's own clauses in text order, with the clause the TEXT puts them in
@@ -1556,6 +1561,8 @@ def oracle(case, outcome):
             if a in seen or a in plain:
                 kind = "subquery" if e["kind"] == "subquery" else "table"
                 reason = "duplicate-invented-name" + ("-reused-object" if (e["pretag"] or seen.get(a, {}).get("pretag")) else "")
+                if a in seen and seen[a]["kind"] != e["kind"]:
+                    reason = "numbered-table-alias-equals-subquery-tag"
                 if a in plain and a not in seen:
                     reason = "invented-name-equals-table"
                 viols.append({"signature": ["C10", "from/join", kind, reason],
@@ -1579,7 +1586,7 @@ def oracle_hist(case, outcome):
     """names of the sub-queries the user did not alias are pairwise distinct within the statement"""
     viols, seen = [], {}
     for e, a in zip(case["evs"], outcome["aliases"]):
-        if e[1] not in ("fresh", "pretag") and not (e[1] == "setop" and e[3] is None and e[0] == "from"):
+        if e[1] not in ("fresh", "pretag") and not (e[1] == "setop" and e[3] is None):
             continue
         if a is None:
             viols.append({"signature": ["C10", "from/join", "subquery", "no-name"], "what": "un-aliased sub-query left without a name: %r" % outcome["text"][:300]})
